@@ -112,6 +112,15 @@ CHECKS = {
              'templates and type and text must agree.',
         note='Codecs trusted; for a single piece the property leaves the result type open.',
         ref='DESIGN.md section 4 C19'),
+    'C20': dict(engine='DTTree',
+        technique='TLA+ state machine of dtml-tree (DTTree) checked by TLC; lock-step product exploration of every exported '
+                  'transition through the real tag; recorded random histories validated by TLC (ObsTree)',
+        text='exp (the set of expanded nodes) is the only state; TLC checks Closed, RowsAreChildrenOfExpanded, OneLinkEach, '
+             'ToggleOnly and the codec length arithmetic over all ordered trees of the tier and exports every transition; the '
+             'harness drives the real tag along each (cookie + generated link) comparing rows, links and the decoded cookie; '
+             'random larger trees with long / non-ASCII ids and histories up to 40 are validated by TLC; codec round trips.',
+        note='zlib/base64/json trusted; default tree options; ids without a double quote (they are not escaped in the anchors).',
+        ref='DESIGN.md section 4 C20'),
 }
 
 REASON_PENDING = 'check not built yet in this round (planned, see DESIGN.md section 4)'
